@@ -774,10 +774,10 @@ func (vm *VM) startGoroutine() bool {
 	off := vm.fn.Body[vm.pc]
 	// Copy the registers that hold the arguments, without going beyond the
 	// end of the stacks.
-	copy(nvm.regs.int, vm.regs.int[vm.fp[0]+Addr(off.Op):min(int(vm.fp[0])+127, len(vm.regs.int))])
-	copy(nvm.regs.float, vm.regs.float[vm.fp[1]+Addr(off.A):min(int(vm.fp[1])+127, len(vm.regs.float))])
-	copy(nvm.regs.string, vm.regs.string[vm.fp[2]+Addr(off.B):min(int(vm.fp[2])+127, len(vm.regs.string))])
-	copy(nvm.regs.general, vm.regs.general[vm.fp[3]+Addr(off.C):min(int(vm.fp[3])+127, len(vm.regs.general))])
+	copy(nvm.regs.int, vm.regs.int[vm.fp[0]+Addr(off.Op):min(int(vm.fp[0])+128, len(vm.regs.int))])
+	copy(nvm.regs.float, vm.regs.float[vm.fp[1]+Addr(off.A):min(int(vm.fp[1])+128, len(vm.regs.float))])
+	copy(nvm.regs.string, vm.regs.string[vm.fp[2]+Addr(off.B):min(int(vm.fp[2])+128, len(vm.regs.string))])
+	copy(nvm.regs.general, vm.regs.general[vm.fp[3]+Addr(off.C):min(int(vm.fp[3])+128, len(vm.regs.general))])
 	verifYield(vm, VerifSiteGoBefore)
 	go nvm.runFunc(fn, vars)
 	verifYield(vm, VerifSiteGoAfter)
